@@ -326,6 +326,22 @@ func cmdCheck(args []string) int {
 			}
 			allObls = append(allObls, o)
 		}
+		// constant package-level maps (decided syntactically over the package)
+		for _, cm := range c.constMaps {
+			if !containsStr(cm.Props, *prop) {
+				continue
+			}
+			if c.pkg.Members[cm.Var] == nil {
+				continue // another package of this run
+			}
+			q := "(set-logic ALL)\n(assert false)\n(check-sat)\n"
+			what := "constmap " + cm.Text
+			if probs := c.checkConstMap(cm); len(probs) > 0 {
+				q = "(set-logic ALL)\n(declare-const witness Int)\n(assert (= witness 0))\n(check-sat)\n(get-model)\n"
+				what += ": " + strings.Join(probs, "; ")
+			}
+			allObls = append(allObls, &Obl{Name: "constmap/" + cm.Var, Kind: "constmap", Props: cm.Props, Text: what, Seq: 1 << 30, Custom: q})
+		}
 		// regular-expression lemmas
 		for _, rd := range c.regexes {
 			if !containsStr(rd.Props, *prop) {
